@@ -475,6 +475,16 @@ def load_targets():
     def add(d, origin):
         d = dict(d)
         d["fns"] = [tuple(x) for x in d.get("fns", [])]
+        # (b0809, additive) a json block may bring its own normalisation rules `"rules": {name: [regex, replacement, meaning,
+        # count?]}` (a name already bound to another rule is an error) and a plan `"normalise": {"Impl::fn": [rule names]}`
+        for rn, rv in (d.pop("rules", None) or {}).items():
+            rv = tuple(rv)
+            if rn in RULES and tuple(RULES[rn]) != rv:
+                raise ExtractError("x_fn: %s: normalisation rule %s is already defined differently" % (origin, rn))
+            RULES[rn] = rv
+        if isinstance(d.get("normalise"), dict):
+            d["normalise"] = {(tuple(k.rsplit("::", 1)) if "::" in k else (None, k)) if isinstance(k, str) else k: list(v)
+                              for k, v in d["normalise"].items()}
         if d["area"] not in by:
             d.setdefault("consts", []); d.setdefault("structs", []); d.setdefault("externals", {}); d.setdefault("foreign_structs", {})
             d["consts"], d["structs"] = list(d["consts"]), list(d["structs"])
